@@ -420,6 +420,11 @@ class ApiGen:
             plain_top("zz_lookup", [("key", Tt.TupleType([str_t, str_t]))])
             plain_top("zz_collect", [("items", Tt.SetType([int_t])), ("more", Tt.SetType([str_t]))])
             plain_top("zz_unique", [("names", Tt.SetType([str_t]))])
+            # Literal values with a quote, a backslash, a backslash before a quote, a line break (escaped in the stub since
+            # d913d69), alone and next to None / another type
+            odd = Tt.LiteralType(['q"t', "b\\s", 'u\\"v', "l\nb"])
+            plain_top("zz_quote", [("zz_mode", odd), ("zz_opt", Tt.UnionType([Tt.LiteralType(['q"t']), Tt.NamedType("None", "builtins.None")])),
+                                   ("zz_mix", Tt.UnionType([Tt.LiteralType(["b\\s"]), int_t]))])
             # a class defined in a LATER module, re-exported by the root package under an ALIAS, and used as the superclass of
             # public classes in an earlier and in the same later module: every subclass must name the same superclass
             self._zz_alias_reexport = None
